@@ -25,16 +25,27 @@ def fresh_copy():
 
 
 def apply(m):
-    for (f, old, new) in m["edits"]:
+    for e in m["edits"]:
+        f, old, new = e[:3]
         p = os.path.join(SCRATCH, f)
         s = open(p).read()
+        if len(e) == 4:
+            # (file, old, new, (k, n)): replace the k-th of exactly n occurrences
+            k, n = e[3]
+            if s.count(old) != n:
+                raise SystemExit("mutant %s: pattern occurs %d times in %s, expected %d: %r" % (m["id"], s.count(old), f, n, old[:60]))
+            parts = s.split(old)
+            s2 = old.join(parts[:k + 1]) + new + old.join(parts[k + 1:])
+            open(p, "w").write(s2)
+            continue
         if s.count(old) != 1:
             raise SystemExit("mutant %s: pattern occurs %d times in %s: %r" % (m["id"], s.count(old), f, old[:60]))
         open(p, "w").write(s.replace(old, new))
 
 
 def revert(m):
-    for (f, old, new) in m["edits"]:
+    for e in m["edits"]:
+        f = e[0]
         subprocess.check_call(["git", "-C", "/repo", "show", "HEAD:" + f], stdout=open(os.path.join(SCRATCH, f), "w"))
 
 
